@@ -52,6 +52,7 @@ type oracles struct {
 	preRestart                                    *modelAt
 	inRestart                                     bool
 	firstSeen                                     map[string]string
+	cacheEvents                                   []cacheEvent     // API steps that changed converter caches
 	changedAt                                     map[string][]int // tag -> steps at which its matches or definition changed
 	flagged                                       map[string]bool
 	onDemandNote                                  string
@@ -300,6 +301,10 @@ func (o *oracles) afterAPI(op Op, r OpResult) {
 		r  OpResult
 	}{op, r}
 	switch op.K {
+	case "ResetConv":
+		if r.Err == "" {
+			o.cacheEvents = append(o.cacheEvents, cacheEvent{o.s.stepNo, "api:ResetConv", -1})
+		}
 	case "OpenView":
 		o.viewOpened(op, r)
 	case "ReadView":
@@ -328,6 +333,7 @@ func (o *oracles) afterAPI(op Op, r OpResult) {
 				}
 			}
 			o.onDemand[fmt.Sprintf("%s/%d", op.Conv, op.Stream)] = true
+			o.cacheEvents = append(o.cacheEvents, cacheEvent{o.s.stepNo, "api:StreamData", int64(op.Stream)})
 			o.s.res.Count("probe_on_demand_conversion", 1)
 			if o.on("C16") && r.Text != "empty" && o.onDemandNote == "/current-view" {
 				want, got, _ := strings.Cut(r.Text, "/")
@@ -616,6 +622,28 @@ func convReading(def string) bool {
 	return false
 }
 
+type cacheEvent struct {
+	step   int
+	what   string // api:StreamData | api:ResetConv
+	stream int64  // -1 = all
+}
+
+// cacheChangedDuringJob: did an API call change converter output (on-demand
+// conversion, converter reset) while the tagging job that just completed for
+// name was in flight? That is the cause recorded as a known finding under the
+// API step; the job only makes it visible when it publishes.
+func (o *oracles) cacheChangedDuringJob(name string, stream uint, j *jobRec) string {
+	if j == nil || j.kind != simrt.KindTag || j.arg != name {
+		return ""
+	}
+	for _, e := range o.cacheEvents {
+		if e.step > j.spawnStep && e.step <= o.s.stepNo && (e.stream < 0 || e.stream == int64(stream)) {
+			return e.what
+		}
+	}
+	return ""
+}
+
 // noteTagChanges records at which steps a tag's membership or definition changed.
 func (o *oracles) noteTagChanges() {
 	prev := map[string]string{}
@@ -709,6 +737,32 @@ func (o *oracles) rootClass(name string, gerr map[string]string) string {
 	return defClass(defs[name])
 }
 
+// readsConverter: the tag or a tag it references reads converter output.
+func (o *oracles) readsConverter(name string) bool {
+	defs := map[string]string{}
+	for _, t := range o.state.Tags {
+		defs[t.Name] = t.Definition
+	}
+	seen := map[string]bool{}
+	var walk func(n string) bool
+	walk = func(n string) bool {
+		if seen[n] {
+			return false
+		}
+		seen[n] = true
+		if convReading(defs[n]) {
+			return true
+		}
+		for _, r := range defRefs(defs[n]) {
+			if walk(r) {
+				return true
+			}
+		}
+		return false
+	}
+	return walk(name)
+}
+
 func (o *oracles) checkTags(st stepRef) {
 	r := o.s.probe(Op{K: "Recompute"})
 	for _, n := range sortedKeys(r.GErr) {
@@ -751,7 +805,8 @@ func (o *oracles) checkTags(st stepRef) {
 			continue
 		}
 		class := o.rootClass(t.Name, r.GErr)
-		if o.convJobActive && class == "converter-data" {
+		readsConv := o.readsConverter(t.Name)
+		if o.convJobActive && readsConv {
 			o.s.res.Count("c06_relaxed_converter_in_flight", 1)
 			o.flagged[t.Name] = true
 			continue
@@ -773,6 +828,10 @@ func (o *oracles) checkTags(st stepRef) {
 					sig = class + "/" + kind + "@" + o.trigger()
 					if st.kind == "post" && o.refChangedDuringJob(t.Name, st.job) {
 						sig = "ref-changed-during-job/" + kind + "@post:tag"
+					} else if st.kind == "post" && readsConv {
+						if w := o.cacheChangedDuringJob(t.Name, s, st.job); w != "" {
+							sig = "converter-data/" + kind + "@" + w
+						}
 					}
 					if st.kind == "final" {
 						sig = class + "/" + kind + "@quiescence"
